@@ -289,6 +289,9 @@ class GeminiServerProtocol(asyncio.Protocol):
         # which cannot be framed is replaced as a whole instead of leaving a
         # malformed or half-written one on the wire.
         status, meta, body = response.status, response.meta, response.body
+        if not (20 <= status < 30):
+            # Only success responses carry a body
+            body = None
         try:
             if isinstance(body, str):
                 body = body.encode("utf-8")
